@@ -1,19 +1,192 @@
 //! C17: watermark progress - the minimum over active upstream replicas is forwarded.
+use std::collections::{BTreeMap, BTreeSet};
+use std::sync::Arc;
+
+use renoir::operator::StreamElement;
+use renoir::prelude::*;
+use renoir::verif::observe::Event;
+use renoir::{BatchMode, Replication};
+
 use crate::driver::{PropSpec, Tier};
-use crate::explore::Scenario;
-use crate::props::start_e2::{scenarios, Oracle};
+use crate::explore::{hash_of, Check, Fail, Scenario};
+use crate::kit::{probe, run_hosts, Layout, ScriptSource, K_FAR, K_TS, K_WM};
+use crate::props::common::ORDERS3;
+use crate::props::start_e2::{progress_fails, scenarios, Arr, Oracle, Sym};
+use crate::rt::{log, EnvParams, Ev, Status};
+
+const PROBE: u32 = 17;
+
+#[derive(Clone, Copy, Debug, PartialEq, Eq)]
+enum Conn {
+    Shuffle,
+    GroupBy,
+    Broadcast,
+}
+
+/// A job `timestamped source (one scripted sequence per replica) -> connection -> probe`: the
+/// arrival sequence at every downstream replica is read off the link observer, the reference
+/// tracker runs over it, and the probe right behind the block's `Start` must show each rise of
+/// the minimum.
+fn job_scenario(iters: Vec<Vec<Vec<Sym>>>, conn: Conn, layout: Layout, bound: usize) -> Scenario {
+    let n = layout.total_cores() as usize;
+    let name = format!("C17/job/{:?}/{}/{:?}", conn, layout.name(), iters).replace(' ', "");
+    let descr = format!("timestamped source with per-iteration, per-replica sequences {:?} (T = element, W = watermark) -> {:?} -> probe, layout {}", iters, conn, layout.name());
+    let it2 = iters.clone();
+    let l2 = layout.clone();
+    let body: crate::rt::Body = Arc::new(move || {
+        let it3 = it2.clone();
+        let res = run_hosts(
+            &l2,
+            Arc::new(move |_host, env| {
+                let mut scripts: Vec<Vec<StreamElement<i64>>> = vec![vec![]; n];
+                for it in &it3 {
+                    for r in 0..n {
+                        if let Some(seq) = it.get(r) {
+                            for (j, s) in seq.iter().enumerate() {
+                                scripts[r].push(match s {
+                                    Sym::T(t) => StreamElement::Timestamped((r * 100 + j) as i64, *t),
+                                    Sym::W(w) => StreamElement::Watermark(*w),
+                                });
+                            }
+                        }
+                        scripts[r].push(StreamElement::FlushAndRestart);
+                    }
+                }
+                let s = env.stream(ScriptSource::new(scripts, Replication::Unlimited)).batch_mode(BatchMode::fixed(1));
+                match conn {
+                    Conn::Shuffle => probe(s.shuffle(), PROBE).for_each(|_| {}),
+                    Conn::GroupBy => probe(s.group_by(|x: &i64| x % 2).0, PROBE).for_each(|_| {}),
+                    Conn::Broadcast => probe(s.broadcast(), PROBE).for_each(|_| {}),
+                }
+                env.execute_blocking();
+            }),
+        );
+        for (h, r) in res.into_iter().enumerate() {
+            if let Some(p) = r {
+                log(Ev::Text("host-panic", format!("{h}: {p}")));
+            }
+        }
+    });
+    let d2 = descr.clone();
+    let check: Check = Arc::new(move |r| {
+        if r.status != Status::Done {
+            return Err(Fail::new("c17-job-abnormal", format!("{d2}: {:?}", r.status)));
+        }
+        for e in &r.log {
+            if let Ev::Text("host-panic", t) = e {
+                return Err(Fail::new("c17-job-panic", format!("{d2}: {t}")));
+            }
+        }
+        // the probed block and its replicas
+        let mut consumers: BTreeSet<(u64, u64, u64)> = BTreeSet::new();
+        for e in &r.log {
+            if let Ev::Probe(PROBE, c, ..) = e {
+                consumers.insert(*c);
+            }
+        }
+        if consumers.len() != n {
+            return Err(Fail::new("c17-job-replicas", format!("{d2}: {} downstream replicas were seen, {n} expected", consumers.len())));
+        }
+        let mut wm_seen = 0usize;
+        for c in &consumers {
+            let mut froms: BTreeSet<(u64, u64, u64)> = BTreeSet::new();
+            for e in &r.log {
+                if let Ev::Repo(Event::Received { at, from, .. }) = e {
+                    if at == c {
+                        froms.insert(*from);
+                    }
+                }
+            }
+            if froms.len() != n {
+                return Err(Fail::new("c17-job-upstream", format!("{d2}: replica {:?} heard from {} upstream replicas, {n} exist", c, froms.len())));
+            }
+            let index: BTreeMap<(u64, u64, u64), usize> = froms.iter().enumerate().map(|(i, f)| (*f, i)).collect();
+            let mut arrival: Vec<(usize, Arr)> = vec![];
+            let mut out: Vec<Arr> = vec![];
+            for e in &r.log {
+                match e {
+                    Ev::Repo(Event::Received { at, from, elems, .. }) if at == c => {
+                        for el in elems {
+                            match el.kind {
+                                1 => arrival.push((index[from], Arr::Data)),
+                                2 => arrival.push((index[from], Arr::Wm(el.ts.unwrap()))),
+                                5 => arrival.push((index[from], Arr::Far)),
+                                _ => {}
+                            }
+                        }
+                    }
+                    Ev::Probe(PROBE, pc, k, ts, _) if pc == c => {
+                        if *k == K_TS {
+                            out.push(Arr::Data);
+                        } else if *k == K_WM {
+                            wm_seen += 1;
+                            out.push(Arr::Wm(ts.unwrap()));
+                        } else if *k == K_FAR {
+                            out.push(Arr::Far);
+                        }
+                    }
+                    _ => {}
+                }
+            }
+            let fails = progress_fails(n, &arrival, &out, &|| format!("{d2}: downstream replica {:?}, arrival sequence (upstream replica, element) {:?}, observed behind its Start {:?}", c, arrival, out));
+            if let Some(f) = fails.into_iter().next() {
+                return Err(f);
+            }
+        }
+        Ok(hash_of(&(wm_seen, r.trace.len())))
+    });
+    Scenario {
+        name,
+        descr,
+        params: EnvParams { random_arity: n, observe_links: true, ..Default::default() },
+        body,
+        check,
+        bound,
+        orders: ORDERS3.to_vec(),
+        max_execs: 0,
+        shards: 1,
+        nontrivial: iters.iter().any(|it| it.iter().filter(|s| s.iter().any(|x| matches!(x, Sym::W(_)))).count() >= 2),
+        unbounded: false,
+        loop_body: false,
+    }
+}
 
 fn build(tier: Tier) -> Vec<Scenario> {
-    scenarios("C17", Oracle::Progress, tier == Tier::Quick)
+    use Sym::{T, W};
+    let mut out = scenarios("C17", Oracle::Progress, tier == Tier::Quick);
+    // whole jobs: End must hand every watermark to every downstream replica, whatever the
+    // connection sends the data to
+    let seq_sets: Vec<Vec<Vec<Vec<Sym>>>> = vec![
+        vec![vec![vec![T(1), W(1), T(2), W(2), T(3), W(3)], vec![T(1), W(1), T(3), W(3)], vec![W(2), T(4), W(4)]]],
+        vec![vec![vec![W(2), T(3)], vec![], vec![T(1), W(1)]]],
+        vec![vec![vec![T(0), W(0), T(1), W(1)], vec![T(2), W(2)], vec![W(0), W(3)]]],
+        // (one iteration only: nothing but a loop aligns the iterations of different source
+        // replicas, so a scripted second iteration of one replica could overtake the first of
+        // another - an input no real job produces; several iterations are covered by part (1))
+        vec![vec![vec![T(1), W(2), T(3), T(4), W(4)], vec![W(1), W(2), W(3), T(4)], vec![T(2), W(3)]]],
+    ];
+    let layouts: Vec<(Layout, usize)> = if tier == Tier::Quick {
+        vec![(Layout::Local(2), 1), (Layout::Local(3), 0), (Layout::Remote(vec![1, 1]), 0)]
+    } else {
+        vec![(Layout::Local(2), 2), (Layout::Local(3), 1), (Layout::Remote(vec![1, 1]), 1), (Layout::Remote(vec![2, 1]), 1)]
+    };
+    for (layout, bound) in layouts {
+        for set in &seq_sets {
+            for conn in [Conn::Shuffle, Conn::GroupBy, Conn::Broadcast] {
+                out.push(job_scenario(set.clone(), conn, layout.clone(), bound));
+            }
+        }
+    }
+    out
 }
 
 pub fn spec() -> PropSpec {
     PropSpec {
         id: "C17",
         build,
-        rule: "the real Start operator (with its WatermarkFrontier) of a block fed by 2-3 upstream replicas through the real channel: every contract-respecting per-replica sequence of timestamped elements and watermarks up to the length bound (replicas with no data, replicas ending early, a second iteration), ALL arrival interleavings including the end-of-iteration markers, two batchings; reference tracker = min over replicas that have not ended their iteration of their latest watermark; whenever it rises to m, Watermark(m) must be output before the next element; non-trivial = every replica sends at least one watermark",
-        assumptions: &["sequences up to the stated length, timestamps 0..=4"],
-        exhaustive_when_uncapped: true,
+        rule: "(1) the real Start operator (with its WatermarkFrontier) of a block fed by 2-3 upstream replicas through the real channel: every contract-respecting per-replica sequence of timestamped elements and watermarks up to the length bound (replicas with no data, replicas ending early, a second iteration), ALL arrival interleavings including the end-of-iteration markers, two batchings; reference tracker = min over replicas that have not ended their iteration of their latest watermark; whenever it rises to m, Watermark(m) must be output before the next element; (2) whole jobs timestamped source -> shuffle / group_by / broadcast -> probe on local 2-3 and two-host layouts under schedule exploration: the arrival sequence at every downstream replica is taken from the link observer and the same reference tracker is run over it (End must hand each watermark to every downstream replica); non-trivial = at least two replicas send watermarks",
+        assumptions: &["sequences up to the stated length, timestamps 0..=4", "deviation bound as reported for the job scenarios"],
+        exhaustive_when_uncapped: false,
         budget_s: (50, 900),
     }
 }
